@@ -4,8 +4,14 @@
     Run with the target directory as working directory. *)
 Require Import ExtrOcamlBasic.
 From Coq Require Import List NArith ZArith.
-From PQ Require Import Bytes BitExpr Bitpack Varint RleSpec Rle.
+From PQ Require Import Bytes BitExpr Bitpack Varint RleSpec Rle Schema Dremel Plain Stats MetaTypes Thrift Meta Writer FileSpec Io Reader.
 
 Extraction "model.ml"
   Bitpack.pack Bitpack.unpack Bitpack.spec_pack
-  Rle.rle_encode Rle.rle_read RleSpec.hybrid_decode_framed RleSpec.runs_values RleSpec.hybrid_encode.
+  Rle.rle_encode Rle.rle_read RleSpec.hybrid_decode_framed RleSpec.runs_values RleSpec.hybrid_encode
+  Schema.columns Schema.has_tyb Dremel.shred_record Dremel.assemble_records
+  Stats.page_stats Stats.stats_sound
+  Meta.enc_page_header Meta.dec_page_header Meta.enc_file_meta Meta.dec_file_meta
+  Writer.run_history Writer.run_fault Writer.file_bytes Writer.nonempty_batches
+  FileSpec.check_file FileSpec.view_records FileSpec.chunk_entries
+  Io.mk_src Reader.read_all_src.
